@@ -8,8 +8,8 @@ Line protocol (bytes: lower-case hex, `-` = empty; text: decimal code points joi
 * `decode <hex>`               → `ok <cps>` | `err UnicodeDecodeError`
 * `encode <cps>`               → `ok <hex>` | `err UnicodeEncodeError`
 * `readtext <hex>`             → `ok <cps>` | `err UnicodeDecodeError`    (text-mode read of a file)
-* `deliver file|stdout <linesep cps> <banner cps> <text cps>` → `ok <hex>` | `err UnicodeEncodeError`
-* `cli <file|stdout> <banner cps> <name cps> <cdef hex> <csrc hex>` with the identity-on-prelude generator
+* `deliver file|stdout <linesep cps> <text cps>` → `ok <hex>` | `err UnicodeEncodeError`
+* `cli <file|stdout> <name cps> <cdef hex> <csrc hex>` with the identity-on-prelude generator
                                → `ok <hex>` | `err <kind>`   (the read-sources pipeline end to end)
 -/
 
@@ -52,19 +52,19 @@ def step (_ : Unit) : List String → Unit × String
         | .ok s => "ok " ++ cpsOut s
         | .error e => errOut e)
     | none => ((), "bad-op")
-  | ["deliver", o, ls, banner, s] =>
-    match out? o, cps? ls, cps? banner, cps? s with
-    | some o, some ls, some banner, some t => ((), match deliver ls o banner t with
+  | ["deliver", o, ls, s] =>
+    match out? o, cps? ls, cps? s with
+    | some o, some ls, some t => ((), match deliver ls o t with
+        | .ok bs => "ok " ++ bytesOut bs
+        | .error e => errOut e)
+    | _, _, _ => ((), "bad-op")
+  | ["cli", o, name, cdef, csrc] =>
+    match out? o, cps? name, bytes? cdef, bytes? csrc with
+    | some o, some name, some cdef, some csrc =>
+      ((), match cliReadSources (fun _ _ p => .ok p) [10] o name cdef csrc with
         | .ok bs => "ok " ++ bytesOut bs
         | .error e => errOut e)
     | _, _, _, _ => ((), "bad-op")
-  | ["cli", o, banner, name, cdef, csrc] =>
-    match out? o, cps? banner, cps? name, bytes? cdef, bytes? csrc with
-    | some o, some banner, some name, some cdef, some csrc =>
-      ((), match cliReadSources (fun _ _ p => .ok p) [10] o banner name cdef csrc with
-        | .ok bs => "ok " ++ bytesOut bs
-        | .error e => errOut e)
-    | _, _, _, _, _ => ((), "bad-op")
   | _ => ((), "bad-op")
 
 def main : IO Unit := runDriver () step
